@@ -881,6 +881,8 @@ def run_one(scenario, run_seed, schedule=None, max_steps=4000,
     sim.recorder = recorder
     stats['style'] = getattr(pol, 'style', 'replay')
     stats['transitions'] = sim.t
+    stats['transitions_inside_a_worker_step'] = sim.nested_fired
+    stats['runs_with_a_preempted_step'] = int(sim.nested_fired > 0)
     return sim, V, stats, st
 
 
